@@ -131,7 +131,7 @@ SymbolicOK(o, xs, fl, res) ==
 (* zero/infinite/NaN values out of the positions where any-ness matters, and *)
 (* quantities out of exponents except as a direct non-zero leaf.             *)
 EvidentOK(o, xs, fl) ==
-  /\ (o \in {"add2", "add3", "min2", "max2"} => \A i \in DOMAIN xs : IsAny(xs[i]) => fl[i].e)
+  /\ (o \in {"add2", "add3", "min2", "max2", "mul2", "mul3"} => \A i \in DOMAIN xs : IsAny(xs[i]) => fl[i].e)
   /\ (o = "pow" => /\ (IsAny(xs[2]) => fl[2].e)
                    /\ (xs[1].c = "zero" => ~fl[2].q)      \* 0 ** quantity: SymPy itself collapses it
                    /\ (fl[2].q => (fl[2].lf /\ ~IsAny(xs[2])) \/ PowRefused(xs[1], xs[2])))
